@@ -5,6 +5,7 @@ package handler
 
 import (
 	"encoding/json"
+	"errors"
 	"fmt"
 	"io"
 	"net/http"
@@ -25,6 +26,9 @@ import (
 const errorWithCauseContentType = "application/vnd.aws.lambda.error.cause+json"
 const xrayErrorCauseHeaderName = "Lambda-Runtime-Function-XRay-Error-Cause"
 const invalidErrorBodyMessage = "Invalid error body"
+
+// errReadingErrorBody marks a request body that could not be read to its end (as opposed to one that could not be parsed)
+var errReadingErrorBody = errors.New("error reading request body")
 
 const (
 	contentTypeHeader          = "Content-Type"
@@ -72,6 +76,14 @@ func (h *invocationErrorHandler) ServeHTTP(writer http.ResponseWriter, request *
 	}
 	functionResponseMode := request.Header.Get(functionResponseModeHeader)
 
+	if errors.Is(err, errReadingErrorBody) {
+		// the upload broke off: there is no body of the runtime to hand to the caller, the submission is refused
+		// (as a response that cannot be read is); the invocation ends by its timeout unless the runtime exits
+		log.WithError(err).Warn("Failed to read error body")
+		rendering.RenderTruncatedHTTPRequestError(writer, request)
+		return
+	}
+
 	if err != nil {
 		log.WithError(err).Warn("Failed to parse error body")
 	}
@@ -108,7 +120,7 @@ func (h *invocationErrorHandler) getErrorType(headers http.Header) string {
 func (h *invocationErrorHandler) getErrorBody(request *http.Request) ([]byte, error) {
 	errorBody, err := io.ReadAll(request.Body)
 	if err != nil {
-		return nil, fmt.Errorf("error reading request body: %s", err)
+		return nil, fmt.Errorf("%w: %s", errReadingErrorBody, err)
 	}
 	return errorBody, nil
 }
@@ -133,7 +145,7 @@ func (h *invocationErrorHandler) getValidatedErrorCause(headers http.Header) jso
 func (h *invocationErrorHandler) getErrorBodyForErrorCauseContentType(request *http.Request) ([]byte, json.RawMessage, error) {
 	errorBody, err := io.ReadAll(request.Body)
 	if err != nil {
-		return nil, nil, fmt.Errorf("error reading request body: %s", err)
+		return nil, nil, fmt.Errorf("%w: %s", errReadingErrorBody, err)
 	}
 
 	parsedError, err := newErrorWithCauseRequest(errorBody)
